@@ -10,7 +10,7 @@ from vx.core import Scenario
 META = dict(
     explanation="Oracle = the other specification. Cost equalities are decided across a cut: once the two total covariance matrices are proved equal entry by entry, both are replaced by the same symbols, so that the two cost terms are compared as kernels of the same arguments.",
     bounds=dict(quick="n = 2 points", thorough="n = 2 points (n = 3 for the container-level families)"),
-    outside=["convenience wrappers (xy_fit ...) and YAML shorthand: covered by the backend-stub / representation checks where built", "SymPy expressions with transcendental functions", "YAML text parsing"],
+    outside=["YAML shorthand of kafe2go input files", "SymPy expressions with transcendental functions", "YAML text parsing"],
     assumptions=["relative vs absolute simple source: reference values > 0 where the absolute counterpart must be a valid (non-negative) uncertainty; mixed signs are compared against the explicit matrix form"],
     exhaustive=dict(quick=True, thorough=True),
 )
@@ -292,6 +292,148 @@ def sc_model_forms(cx, form, cost):
     cx.eq("model-forms/%s:y_model" % form, fa.y_model, fb.y_model)
 
 
+def setup_symbolic():
+    from vx import stubs
+
+    stubs.install_backends(True)
+
+
+def setup_concrete():
+    from vx import stubs
+
+    stubs.install_backends(False)
+
+
+def _idx_model(a, b):
+    return [a + b, 2 * a - b]
+
+
+def sc_wrapper(cx, which, spec):
+    """convenience wrappers (indexed_fit / xy_fit) vs the explicitly constructed fit with the documented meaning of the
+    keyword arguments: error / error_rel / error_cor / error_cor_rel (each value of a *_cor argument is one fully
+    correlated source), relative uncertainties refer to the model by default; p0 / fixed / limits / constraints"""
+    import sys
+
+    import kafe2.fit.util.wrapper  # noqa: F401
+    from kafe2 import IndexedFit, XYFit
+    from vx import stubs
+
+    W = sys.modules["kafe2.fit.util.wrapper"]
+    stubs.reset()
+    n = 2
+    kw = {}
+    e = cx.reals("e", n)
+    c = cx.reals("c", 2)
+    r = cx.real("r")
+    cr = cx.reals("cr", 2)
+    for v in list(e) + list(c) + [r] + list(cr):
+        cx.assume(v >= 0)
+    p0 = cx.reals("p0", 2)
+    for v in p0:
+        cx.assume(v != 0)
+    common = dict(report=False, profile=False, save=False, p0=list(p0))
+    tag = "wrapper/%s/%s" % (which, "+".join(spec))
+    if "fixed" in spec:
+        fv = cx.real("fv")
+        common["fixed"] = ("b", fv)
+    if "limits" in spec:
+        lo, hi = cx.real("lo"), cx.real("hi")
+        cx.assume(lo < p0[0])
+        cx.assume(p0[0] < hi)
+        common["limits"] = ("a", lo, hi)
+    if "constraint" in spec:
+        kv, ku = cx.real("kv"), cx.real("ku")
+        cx.assume(ku > 0)
+        common["constraints"] = ("a", kv, ku)
+    if which == "indexed":
+        d = cx.reals("d", n)
+        if "error" in spec:
+            kw["error"] = list(e)
+        if "cor" in spec:
+            kw["error_cor"] = list(c)
+        if "cor-scalar" in spec:
+            kw["error_cor"] = c[0]
+        if "rel" in spec:
+            kw["error_rel"] = r
+        if "cor-rel" in spec:
+            kw["error_cor_rel"] = list(cr)
+        res = W.indexed_fit(_idx_model, list(d), **kw, **common)
+        fa = res["fit"]
+        fb = IndexedFit(list(d), _idx_model)
+        if "error" in spec:
+            fb.add_error(list(e))
+        if "cor" in spec:
+            for v in c:
+                fb.add_error(v, correlation=1.0)
+        if "cor-scalar" in spec:
+            fb.add_error(c[0], correlation=1.0)
+        if "rel" in spec:
+            fb.add_error(r, relative=True, reference="model")
+        if "cor-rel" in spec:
+            for v in cr:
+                fb.add_error(v, correlation=1.0, relative=True, reference="model")
+    else:
+        x, y = cx.reals("x", n), cx.reals("y", n)
+        if "error" in spec:
+            kw["y_error"] = list(e)
+        if "cor" in spec:
+            kw["y_error_cor"] = list(c)
+        if "rel" in spec:
+            kw["y_error_rel"] = r
+        if "cor-rel" in spec:
+            kw["y_error_cor_rel"] = list(cr)
+        if "x-cor" in spec:
+            kw["x_error_cor"] = list(c)
+        if "x-error" in spec:
+            kw["x_error"] = list(e)
+        res = W.xy_fit(xy_lin, list(x), list(y), **kw, **common)
+        fa = res["fit"]
+        fb = XYFit([list(x), list(y)], xy_lin)
+        if "error" in spec:
+            fb.add_error("y", list(e))
+        if "cor" in spec:
+            for v in c:
+                fb.add_error("y", v, correlation=1.0)
+        if "rel" in spec:
+            fb.add_error("y", r, relative=True, reference="model")
+        if "cor-rel" in spec:
+            for v in cr:
+                fb.add_error("y", v, correlation=1.0, relative=True, reference="model")
+        if "x-cor" in spec:
+            for v in c:
+                fb.add_error("x", v, correlation=1.0)
+        if "x-error" in spec:
+            fb.add_error("x", list(e))
+    if "constraint" in spec:
+        fb.add_parameter_constraint("a", kv, ku)
+    # what the wrapper handed to the fit before minimising
+    first = [k for k in stubs.CALLS if k["kind"] in ("migrad", "opt.minimize")]
+    cx.concrete(tag + ":the-wrapper-ran-the-fit", len(first) >= 1, info="%r" % [k["kind"] for k in stubs.CALLS][:6])
+    if first:
+        k0 = first[0]
+        start = list(k0["start"]) if k0["kind"] == "migrad" else None
+        if start is not None:
+            want = [p0[0], fv if "fixed" in spec else p0[1]]
+            cx.eq(tag + ":start-values==p0(+fixed-value)", start, want)
+            cx.concrete(tag + ":fixed-flags", [bool(v) for v in k0["fixed"]] == [False, "fixed" in spec], info="%r" % (k0["fixed"],))
+            if "limits" in spec:
+                lim = k0["limits"][0]
+                cx.concrete(tag + ":limits-handed-over", lim is not None and lim[0] is not None, info="%r" % (k0["limits"],))
+                if lim is not None and lim[0] is not None:
+                    cx.eq(tag + ":limits", list(lim), [lo, hi])
+    if any(s_ in spec for s_ in ("rel", "cor-rel")):
+        for f in (fa, fb):
+            pass
+    cx.concrete(tag + ":constraints-registered", len(fa.parameter_constraints) == len(fb.parameter_constraints), info="%d vs %d" % (len(fa.parameter_constraints), len(fb.parameter_constraints)))
+    rel = any(s_ in spec for s_ in ("rel", "cor-rel"))
+    q = [cx.real("q_a"), cx.real("q_b")]
+    if rel:
+        m = _idx_model(*q) if which == "indexed" else [q[0] * xi + q[1] for xi in x]
+        for v in m:
+            cx.assume(v != 0)
+    _compare_fits(cx, tag, fa, fb, n=n)
+
+
 def sc_twin(cx):
     """sensitivity twin: a relative source is NOT the absolute source of the same number"""
     fa, (x, y) = _xy(cx, "chi2_fast")
@@ -318,6 +460,12 @@ def scenarios(tier, seed):
         for axis in ("y", "x"):
             for rel in (False, True):
                 S.append(Scenario("scalar-vs-vector/%s/%s/rel-%s" % (cost, axis, rel), sc_scalar_vs_vector, family="scalar-vs-vector", params=dict(cost=cost, axis=axis, relative=rel)))
+    wr = [("indexed", ["error"]), ("indexed", ["error", "cor"]), ("indexed", ["cor-scalar"]), ("indexed", ["error", "rel"]), ("indexed", ["error", "cor-rel"]), ("indexed", ["error", "cor", "fixed"]),
+          ("indexed", ["error", "limits", "constraint"]), ("xy", ["error", "cor"]), ("xy", ["error", "x-cor"]), ("xy", ["error", "rel", "constraint"]), ("xy", ["error", "cor-rel"]), ("xy", ["error", "x-error", "fixed"])]
+    for which, spec in wr:
+        if tier == "quick" and any(k in spec for k in ("rel", "cor-rel", "x-cor")):
+            continue  # model-relative / correlated x sources: two-pass fits with long symbolic terms -> thorough tier
+        S.append(Scenario("wrapper/%s/%s" % (which, "+".join(spec)), sc_wrapper, family="wrapper/" + which, params=dict(which=which, spec=spec)))
     S.append(Scenario("rel-vs-abs/y/chi2_pointwise", sc_rel_vs_abs, family="rel-vs-abs", params=dict(axis="y", cost="chi2_pointwise")))
     S.append(Scenario("simple-vs-matrix/nll-gaussian", sc_simple_vs_matrix, family="simple-vs-matrix", params=dict(cost="nll-gaussian")))
     for what in ("rel-vs-abs", "simple-vs-matrix", "cor-vs-cov", "scalar-vs-vector"):
